@@ -1,4 +1,4 @@
-import TextxVerif.Proofs.Reg
+import TextxVerif.Proofs.RegFile
 /-!
 # C26 — the language and generator registries behave as case-insensitive maps
 
@@ -20,8 +20,12 @@ theorem bounds the length of the history, the number of names, or anything else.
   case-folded name was free (`gLive` for generators);
 * `Spec`             — the abstract registry: maps over the case-folded name.
 
+* `UniqueMatch E l f d` — `d` is the one language of `l` whose pattern accepts `f`;
+* `sparesAll E k l ops'` — no call of `ops'` (made when the live languages are `l`) can
+  replace the cache entry under the folded name `k` (computed from the history alone).
+
 Only property theorems and non-vacuity examples live here; lemmas are in
-`Proofs/Reg.lean`.
+`Proofs/Reg.lean` and `Proofs/RegFile.lean`.
 -/
 namespace Reg
 
@@ -291,18 +295,23 @@ theorem C26_language_for_file_unique (E : Env) (hE : E.Ok) (ops : List Op) (f : 
       rintro ⟨d, h⟩
       exact hno ⟨d, (hen d).2 h⟩
 
-/-- **The cached instance is returned when called without arguments.** If
+/-- **The cached instance is returned until something replaces it.** If
 `metamodel_for_language(n, **kw)` returned the meta-model `m`, then after any
-further calls that neither clear the language registry nor ask for a meta-model
-with keyword arguments, `metamodel_for_language(n')` without arguments — for any
-case variant `n'` — returns the same object `m` and changes nothing at all. -/
-theorem C26_cache_hit (E : Env) (hE : E.Ok) (ops ops' : List Op) (n n' : String) (kw : Nat) (m : MM)
-    (hcase : E.lower n' = E.lower n) (hq : ∀ op, op ∈ ops' → op.keepsCache = true)
+further calls `ops'` that spare the entry — no clear of the language registry,
+no `metamodel_for_language` with keyword arguments *for that name* (up to case),
+no `metamodel_for_file` with keyword arguments that resolves to the one language
+*of that name*; keyword-argument requests for other languages, registrations,
+lookups, generator calls are all allowed — `metamodel_for_language(n')` without
+arguments, for any case variant `n'`, returns the same object `m` and changes
+nothing at all.  The condition `sparesAll` is computed from the history
+(`live`, `liveStep`) alone. -/
+theorem C26_cache_hit_until (E : Env) (hE : E.Ok) (ops ops' : List Op) (n n' : String) (kw : Nat) (m : MM)
+    (hcase : E.lower n' = E.lower n) (hq : sparesAll E (E.lower n) (live E ops) ops' = true)
     (h : answer E ops (.mmLang n kw) = .mm m) :
     step E (after E (ops ++ .mmLang n kw :: ops')) (.mmLang n' 0)
       = (after E (ops ++ .mmLang n kw :: ops'), .mm m) := by
   obtain ⟨_, hw⟩ := after_sim E hE ops
-  obtain ⟨⟨ha, hr⟩, hw1⟩ := step_sim E hE (after E ops) hw (.mmLang n kw)
+  obtain ⟨⟨ha, hr⟩, _⟩ := step_sim E hE (after E ops) hw (.mmLang n kw)
   have hok : (Spec.metamodel E ((after E ops).abs E) n kw).2 = .ok m := by
     unfold answer at h
     rw [hr] at h
@@ -315,12 +324,20 @@ theorem C26_cache_hit (E : Env) (hE : E.Ok) (ops ops' : List Op) (n n' : String)
       rw [h] at this; simp [Res.mmObjs] at this
   have h1 := Spec.metamodel_ok_cached E _ n kw m hok
   rw [← ha] at h1
-  obtain ⟨hrun, _⟩ := run_sim E hE ops' _ hw1
-  have h2 := Spec.Run_C_keep E ops' _ _ _ hrun hq _ _ h1
-  rw [← after_snoc_cons] at h2
-  have h3 : dget (after E (ops ++ .mmLang n kw :: ops')).cache (E.lower n') = some m := by
-    rw [hcase]; exact h2
-  simp only [step, metamodelForLanguage, h3, Out.res]
+  exact cache_hit_core E hE ops ops' (.mmLang n kw) (E.lower n) m rfl h1 hq n' hcase
+
+/-- **The cached instance is returned when called without arguments** (the coarser
+form of `C26_cache_hit_until`, kept as its corollary). If
+`metamodel_for_language(n, **kw)` returned the meta-model `m`, then after any
+further calls that neither clear the language registry nor ask for a meta-model
+with keyword arguments, `metamodel_for_language(n')` without arguments — for any
+case variant `n'` — returns the same object `m` and changes nothing at all. -/
+theorem C26_cache_hit (E : Env) (hE : E.Ok) (ops ops' : List Op) (n n' : String) (kw : Nat) (m : MM)
+    (hcase : E.lower n' = E.lower n) (hq : ∀ op, op ∈ ops' → op.keepsCache = true)
+    (h : answer E ops (.mmLang n kw) = .mm m) :
+    step E (after E (ops ++ .mmLang n kw :: ops')) (.mmLang n' 0)
+      = (after E (ops ++ .mmLang n kw :: ops'), .mm m) :=
+  C26_cache_hit_until E hE ops ops' n n' kw m hcase (sparesAll_of_keepsCache E _ ops' _ hq) h
 
 /-- **With arguments, a factory-registered language gets a fresh, then-cached
 instance.** If `d` is live with a factory as meta-model and `n` is any case
@@ -385,6 +402,187 @@ theorem C26_cache_not_stale (E : Env) (hE : E.Ok) (ops : List Op) (n : String) (
     simp only [Out.res] at h
     have := Spec.metamodel_raise E _ n kw r ho
     rw [h] at this; simp [Res.mmObjs] at this
+
+/-- **`metamodel_for_file` is `metamodel_for_language` of the one matching language.**
+After any history: (1) if `d` is the one live language whose pattern accepts `f`,
+the call `metamodel_for_file(f, **kw)` *is* the call
+`metamodel_for_language(d.name, **kw)` — same answer and same resulting state,
+hence the same cache rule (cached instance without arguments, fresh then-cached
+instance with arguments: `C26_cache_hit_until`, `C26_cache_fresh`,
+`C26_cache_instance` apply verbatim); (2) if no live language, or more than one,
+accepts `f`, it raises `TextXRegistrationError` and leaves the registry content
+as it is; (3) whatever it answers belongs to that one matching language (no
+stale object, no object of another language). -/
+theorem C26_mm_for_file (E : Env) (hE : E.Ok) (ops : List Op) (f : String) (kw : Nat) :
+    (∀ d, UniqueMatch E (live E ops) f d →
+      step E (after E ops) (.mmForFile f kw) = step E (after E ops) (.mmLang d.name kw)) ∧
+    ((¬ ∃ d, UniqueMatch E (live E ops) f d) →
+      answer E ops (.mmForFile f kw) = .regError ∧
+      (step E (after E ops) (.mmForFile f kw)).1.abs E = (after E ops).abs E) ∧
+    (∀ m, answer E ops (.mmForFile f kw) = .mm m →
+      ∃ d, UniqueMatch E (live E ops) f d ∧ Owns d m) := by
+  obtain ⟨_, hw⟩ := after_sim E hE ops
+  have hl := after_live E hE ops
+  have p1 : ∀ d, UniqueMatch E (live E ops) f d →
+      step E (after E ops) (.mmForFile f kw) = step E (after E ops) (.mmLang d.name kw) :=
+    fun d hu => mmForFile_eq_mmLang E hE _ hw (after_loaded E hE ops) f kw d
+      ((enumerates_single_iff E _ _ hl f d).2 hu)
+  have p2 : (¬ ∃ d, UniqueMatch E (live E ops) f d) →
+      answer E ops (.mmForFile f kw) = .regError ∧
+      (step E (after E ops) (.mmForFile f kw)).1.abs E = (after E ops).abs E := by
+    intro hno
+    have := mmForFile_none E hE _ hw f kw
+      (fun ⟨d, hd⟩ => hno ⟨d, (enumerates_single_iff E _ _ hl f d).1 hd⟩)
+    unfold answer
+    rw [this]
+    exact ⟨rfl, rfl⟩
+  refine ⟨p1, p2, fun m h => ?_⟩
+  by_cases hex : ∃ d, UniqueMatch E (live E ops) f d
+  · obtain ⟨d, hu⟩ := hex
+    have h' : answer E ops (.mmLang d.name kw) = .mm m := by
+      unfold answer at h ⊢
+      rw [← p1 d hu]; exact h
+    obtain ⟨d', h1, h2, h3⟩ := C26_cache_not_stale E hE ops d.name kw m h'
+    have := LiveRel_inj E _ _ hl d d' hu.1 h1 h2
+    subst this
+    exact ⟨_, hu, h3⟩
+  · rw [(p2 hex).1] at h; cases h
+
+/-- …so the two calls are interchangeable in every history: all answers, before and after, agree. -/
+theorem C26_mm_for_file_history (E : Env) (hE : E.Ok) (ops ops' : List Op) (f : String) (kw : Nat)
+    (d : LangDesc) (hu : UniqueMatch E (live E ops) f d) :
+    run E St.init (ops ++ .mmForFile f kw :: ops') = run E St.init (ops ++ .mmLang d.name kw :: ops') := by
+  have e := (C26_mm_for_file E hE ops f kw).1 d hu
+  unfold after at e
+  rw [run_append, run_append]
+  simp only [run, e]
+
+/-- **The instance cached through `metamodel_for_file` is returned until something
+replaces it**: `C26_cache_hit_until` for an entry made by `metamodel_for_file(f, **kw)`
+resolving to `d`. -/
+theorem C26_cache_hit_file (E : Env) (hE : E.Ok) (ops ops' : List Op) (f : String) (d : LangDesc)
+    (n' : String) (kw : Nat) (m : MM) (hu : UniqueMatch E (live E ops) f d)
+    (hcase : E.lower n' = E.lower d.name)
+    (hq : sparesAll E (E.lower d.name) (live E ops) ops' = true)
+    (h : answer E ops (.mmForFile f kw) = .mm m) :
+    step E (after E (ops ++ .mmForFile f kw :: ops')) (.mmLang n' 0)
+      = (after E (ops ++ .mmForFile f kw :: ops'), .mm m) := by
+  have e := (C26_mm_for_file E hE ops f kw).1 d hu
+  have ea : after E (ops ++ .mmForFile f kw :: ops') = after E (ops ++ .mmLang d.name kw :: ops') := by
+    rw [after_snoc_cons, after_snoc_cons, e]
+  have h' : answer E ops (.mmLang d.name kw) = .mm m := by
+    unfold answer at h ⊢
+    rw [← e]; exact h
+  rw [ea]
+  exact C26_cache_hit_until E hE ops ops' d.name n' kw m hcase hq h'
+
+/-- **With arguments, `metamodel_for_file` gives a factory-registered language a fresh,
+then-cached instance**: if `d`, the one live language accepting `f`, has a factory,
+`metamodel_for_file(f, **kw)` with non-empty `kw` answers an object made by `d`'s factory from
+exactly `kw`, different from every meta-model object handed out earlier, and that object is
+what `metamodel_for_language(n')` answers right afterwards under any spelling. -/
+theorem C26_cache_fresh_file (E : Env) (hE : E.Ok) (ops : List Op) (f : String) (kw : Nat) (d : LangDesc)
+    (hkw : kw ≠ 0) (hu : UniqueMatch E (live E ops) f d) (hf : d.mm = .factory) :
+    ∃ i, answer E ops (.mmForFile f kw) = .mm (.made i d.uid kw) ∧
+      (∀ r, r ∈ (run E St.init ops).2 → ∀ i' b w, MM.made i' b w ∈ r.mmObjs → i' ≠ i) ∧
+      ∀ n', E.lower n' = E.lower d.name →
+        answer E (ops ++ [.mmForFile f kw]) (.mmLang n' 0) = .mm (.made i d.uid kw) := by
+  obtain ⟨i, h1, h2⟩ := C26_cache_fresh E hE ops d.name kw d hkw hu.1 rfl hf
+  have e := (C26_mm_for_file E hE ops f kw).1 d hu
+  have h1' : answer E ops (.mmForFile f kw) = .mm (.made i d.uid kw) := by
+    unfold answer at h1 ⊢
+    rw [e]; exact h1
+  refine ⟨i, h1', h2, fun n' hn' => ?_⟩
+  have := C26_cache_hit_file E hE ops [] f d n' kw _ hu hn' rfl h1'
+  unfold answer
+  rw [this]
+
+/-- **`metamodels_for_file` element by element.** After any history let `ds` be
+what `languages_for_file(f)` answers (by `C26_for_file_exact`: each live language
+accepting `f`, once).  Then `metamodels_for_file(f)` answers a list exactly when
+every language of `ds` has a usable meta-model (an instance or a factory of
+meta-models) — otherwise it raises —, and the list answered has one meta-model
+per language of `ds`, in that order, each belonging to its language (`Owns`, so
+nothing stale) and each being what `metamodel_for_language(d.name)` answers from
+then on (then-cached); in fact the call is the run of `languages_for_file(f)`
+followed by `metamodel_for_language(d.name)` for each `d` of `ds`: same answers,
+same final state — so cached instances are returned and missing ones are made
+as `C26_cache_hit_until` / `C26_cache_fresh` say. -/
+theorem C26_mms_for_file (E : Env) (hE : E.Ok) (ops : List Op) (f : String) :
+    ∃ ds, answer E ops (.langsForFile f) = .descs ds ∧
+      ((∀ d, d ∈ ds → d.mm.usable = true) ↔ ∃ ms, answer E ops (.mmsForFile f) = .mms ms) ∧
+      ((¬ ∀ d, d ∈ ds → d.mm.usable = true) →
+        answer E ops (.mmsForFile f) = .regError ∨ answer E ops (.mmsForFile f) = .typeError) ∧
+      (∀ ms, answer E ops (.mmsForFile f) = .mms ms →
+        AllPairs (fun d m => Owns d m ∧
+          answer E (ops ++ [.mmsForFile f]) (.mmLang d.name 0) = .mm m) ds ms ∧
+        run E (after E ops) (.langsForFile f :: mmCalls ds)
+          = (after E (ops ++ [.mmsForFile f]), .descs ds :: ms.map .mm)) := by
+  obtain ⟨_, hw⟩ := after_sim E hE ops
+  have hl := after_live E hE ops
+  have hcoh := after_coh E hE ops
+  generalize hs : after E ops = s at hw hl hcoh
+  generalize hds : ((s.curL E).map (·.2)).filter (patMatches E f) = ds
+  have h_lf : step E s (.langsForFile f) = (s.loadL E, .descs ds) := by
+    simp only [step, languagesForFile_eq E hE, Out.res, hds]
+  have h_mms : step E s (.mmsForFile f)
+      = ((mmLoop E (s.loadL E) ds).1, (mmLoop E (s.loadL E) ds).2.res .mms) := by
+    simp only [step, metamodelsForFile, languagesForFile_eq E hE, hds]
+  obtain ⟨sim, _, _⟩ := mmLoop_sim E hE ds (s.loadL E)
+  rw [abs_loadL] at sim
+  have sim1 : (mmLoop E (s.loadL E) ds).1.abs E = (Spec.mmLoop E (s.abs E) ds).1 := congrArg Prod.fst sim
+  have sim2 : (mmLoop E (s.loadL E) ds).2 = (Spec.mmLoop E (s.abs E) ds).2 := congrArg Prod.snd sim
+  have hL : ∀ d, d ∈ ds → (s.abs E).L (E.lower d.name) = some d := by
+    intro d hd
+    have hen := (enumerates_cur E s hw f).2 d
+    rw [hds] at hen
+    exact (hl _ d).2 ⟨(registered_live E _ _ hl d).1 (hen.1 hd).1, rfl⟩
+  have hans : answer E ops (.mmsForFile f) = (Spec.mmLoop E (s.abs E) ds).2.res .mms := by
+    unfold answer; rw [hs, h_mms, sim2]
+  have hok : ∀ ms, answer E ops (.mmsForFile f) = .mms ms → (Spec.mmLoop E (s.abs E) ds).2 = .ok ms := by
+    intro ms h
+    rw [hans] at h
+    cases ho : (Spec.mmLoop E (s.abs E) ds).2 with
+    | ok ms' => rw [ho] at h; simp only [Out.res, Res.mms.injEq] at h; rw [h]
+    | raise r =>
+      rw [ho] at h
+      simp only [Out.res] at h
+      rcases Spec.mmLoop_raise_kind E ds _ r ho with e | e <;> (rw [e] at h; cases h)
+  have hpairs : ∀ ms, answer E ops (.mmsForFile f) = .mms ms →
+      AllPairs (fun d m => Owns d m ∧ (Spec.mmLoop E (s.abs E) ds).1.C (E.lower d.name) = some m) ds ms :=
+    fun ms h => Spec.mmLoop_owns E ds _ hcoh hL ms (hok ms h)
+  have huse : (∀ d, d ∈ ds → d.mm.usable = true) ↔ ∃ ms, answer E ops (.mmsForFile f) = .mms ms := by
+    constructor
+    · intro hu
+      obtain ⟨ms, hms⟩ := Spec.mmLoop_ok_of_usable E ds (s.abs E) (fun d hd => ⟨hL d hd, hu d hd⟩)
+      exact ⟨ms, by rw [hans, hms]; rfl⟩
+    · rintro ⟨ms, h⟩ d hd
+      obtain ⟨m, hr⟩ := AllPairs_left ds ms (hpairs ms h) d hd
+      exact Owns_usable _ _ hr.1
+  refine ⟨ds, by unfold answer; rw [hs, h_lf], huse, ?_, ?_⟩
+  · intro hnu
+    rw [hans]
+    cases ho : (Spec.mmLoop E (s.abs E) ds).2 with
+    | ok ms => exact absurd (huse.2 ⟨ms, by rw [hans, ho]; rfl⟩) hnu
+    | raise r =>
+      simp only [Out.res]
+      exact Spec.mmLoop_raise_kind E ds _ r ho
+  · intro ms h
+    have hfin : after E (ops ++ [.mmsForFile f]) = (mmLoop E (s.loadL E) ds).1 := by
+      rw [after_snoc, hs, h_mms]
+    refine ⟨AllPairs_imp ds ms (fun d m _ hr => ⟨hr.1, ?_⟩) (hpairs ms h), ?_⟩
+    · have hc : dget (mmLoop E (s.loadL E) ds).1.cache (E.lower d.name) = some m := by
+        have := hr.2
+        rw [← sim1] at this
+        exact this
+      unfold answer
+      rw [hfin]
+      simp only [step, mfl_fast E _ d.name m hc, Out.res]
+    · have hm : mmLoop E (s.loadL E) ds = ((mmLoop E (s.loadL E) ds).1, .ok ms) :=
+        Prod.ext rfl (by rw [sim2]; exact hok ms h)
+      have hrun := mmLoop_run E ds (s.loadL E) _ ms hm
+      rw [hfin]
+      simp only [run, h_lf, hrun]
 
 /-- In the driver's matcher (`fnmatch` without character classes) every pattern
 matches itself, so the `file_name_or_pattern == language.pattern` disjunct of
@@ -453,6 +651,71 @@ example : exEnv.Ok := asciiEnv_ok _ _ (by decide) (by decide)
 /-- the hypotheses of `C26_cache_fresh` / `C26_cache_hit` are met inside `exOps` -/
 example : exA ∈ live exEnv (exOps.take 3) ∧ exA.mm = .factory ∧
     answer exEnv (exOps.take 1) (.mmLang "FLOW" 0) = .mm (.made 0 1 0) := by decide
+
+/-! ### non-vacuity of the `*_for_file` / `sparesAll` theorems -/
+
+def exG : LangDesc := { uid := 6, name := "Gamma", pattern := some "*.g", mm := .factory }
+def exH : LangDesc := { uid := 7, name := "Eta", pattern := some "*.g", mm := .inst 9 }
+def exBad : LangDesc := { uid := 8, name := "Bad", pattern := some "*.g", mm := .badFactory }
+
+/-- the history before the cached request of the examples below -/
+def exPre : List Op := [.regLang exA, .regLang exG]
+
+/-- calls that spare the entry of `flow` although two of them carry keyword arguments
+(for another language, by name and by file) — `C26_cache_hit` does not apply, `C26_cache_hit_until` does -/
+def exSpare : List Op :=
+  [.mmLang "GAMMA" 1, .mmForFile "x.g" 2, .regLang exB, .lang "flow", .mmsForFile "a.f", .clearGens]
+
+example : sparesAll exEnv (exEnv.lower "Flow") (live exEnv exPre) exSpare = true ∧
+    exSpare.all Op.keepsCache = false ∧
+    answer exEnv exPre (.mmLang "Flow" 2) = .mm (.made 0 1 2) ∧
+    answer exEnv (exPre ++ .mmLang "Flow" 2 :: exSpare) (.mmLang "FLOW" 0) = .mm (.made 0 1 2) := by decide
+
+/-- the condition is sharp: a keyword-argument request resolving to the same language — by
+name in another case, or through the one file pattern — is not spared, and does replace the entry -/
+example : sparesAll exEnv "flow" (live exEnv exPre) [.mmLang "FLOW" 1] = false ∧
+    sparesAll exEnv "flow" (live exEnv exPre) [.mmForFile "a.f" 1] = false ∧
+    sparesAll exEnv "flow" (live exEnv exPre) [.clearLangs] = false ∧
+    answer exEnv (exPre ++ [.mmLang "Flow" 2, .mmForFile "a.f" 1]) (.mmLang "FLOW" 0) = .mm (.made 1 1 1) := by
+  decide
+
+/-- when two languages accept the file, `metamodel_for_file` with arguments raises and spares every entry -/
+example : sparesAll exEnv "gamma" (live exEnv (exPre ++ [.regLang exH])) [.mmForFile "x.g" 1] = true ∧
+    answer exEnv (exPre ++ [.regLang exH]) (.mmForFile "x.g" 1) = .regError := by decide
+
+/-- the hypothesis of `C26_mm_for_file` (1) / `C26_cache_hit_file` is met: `exA` is the one live
+language accepting `a.f`, and the call answers what `metamodel_for_language("Flow", …)` answers -/
+example : ∃ d, UniqueMatch exEnv (live exEnv exPre) "a.f" d ∧ exEnv.lower d.name = "flow" :=
+  (resolvesTo_iff _ _ _ _).1 (by decide)
+
+example : (run exEnv St.init (exPre ++ [.mmForFile "a.f" 1, .mmLang "FLOW" 0, .mmForFile "a.f" 0])).2 =
+    (run exEnv St.init (exPre ++ [.mmLang "Flow" 1, .mmLang "FLOW" 0, .mmForFile "a.f" 0])).2 ∧
+    (run exEnv St.init (exPre ++ [.mmForFile "a.f" 1, .mmLang "FLOW" 0, .mmForFile "a.f" 0])).2.drop 2 =
+      [.mm (.made 0 1 1), .mm (.made 0 1 1), .mm (.made 0 1 1)] := by decide
+
+/-- … and the hypothesis of (2): nothing accepts `a.zz`, two languages accept `x.g` -/
+example : (¬ ∃ d, UniqueMatch exEnv (live exEnv exPre) "a.zz" d) ∧
+    (¬ ∃ d, UniqueMatch exEnv (live exEnv (exPre ++ [.regLang exH])) "x.g" d) := by
+  constructor
+  · rintro ⟨d, hd⟩
+    have h1 := (resolvesTo_iff exEnv _ _ _).2 ⟨d, hd, rfl⟩
+    have h2 : ∀ d, d ∈ live exEnv exPre →
+        resolvesTo exEnv (live exEnv exPre) "a.zz" (exEnv.lower d.name) = false := by decide
+    rw [h2 d hd.1] at h1; cases h1
+  · rintro ⟨d, hd⟩
+    have h1 := (resolvesTo_iff exEnv _ _ _).2 ⟨d, hd, rfl⟩
+    have h2 : ∀ d, d ∈ live exEnv (exPre ++ [.regLang exH]) →
+        resolvesTo exEnv (live exEnv (exPre ++ [.regLang exH])) "x.g" (exEnv.lower d.name) = false := by decide
+    rw [h2 d hd.1] at h1; cases h1
+
+/-- `metamodels_for_file`: the cached factory product and the instance, in registry order, both
+then-cached; with a language whose factory does not produce a meta-model the call raises -/
+example : (run exEnv St.init (exPre ++ [.regLang exH, .mmLang "gamma" 1, .mmsForFile "x.g",
+      .mmLang "ETA" 0, .langsForFile "x.g"])).2.drop 3 =
+    [.mm (.made 0 6 1), .mms [.made 0 6 1, .given 9], .mm (.given 9), .descs [exG, exH]] := by decide
+
+example : answer exEnv (exPre ++ [.regLang exH, .regLang exBad]) (.mmsForFile "x.g") = .regError ∧
+    exBad.mm.usable = false ∧ exG.mm.usable = true ∧ exH.mm.usable = true := by decide
 
 /-- character classes in the driver's environment: the class pattern accepts `a.c` and
 `a.h` but not its own text; asking with the pattern text still finds both languages, a
